@@ -106,6 +106,16 @@ class ExcAnalysis:
         self.global_writes: List[Tuple[str, str, str]] = []
         self.while_loops: List[Tuple] = []
 
+    reencode_total: Set[str] = set()  # decoders that are total on the output of the matching encoder (set by the rule that uses the analysis)
+
+    @staticmethod
+    def _is_own_encoding(call_event) -> bool:
+        args = [a for a in call_event.d.get("args", ()) if unsnap(a).op != "class"]
+        if len(args) != 1:
+            return False
+        a = unsnap(args[0])
+        return a.op == "call" and isinstance(a.args[0], Term) and a.args[0].op == "meth" and a.args[0].args[1] in ("to_der", "to_der_fmt") and not a.args[1]
+
     # ------------------------------------------------------------------ public
     def escapes(self, fi: FuncInfo, self_cls: Optional[ClassInfo] = None) -> List[Escape]:
         key = (id(fi.node), self_cls.qualname if self_cls else None)
@@ -268,6 +278,10 @@ class ExcAnalysis:
                     if not targets:
                         targets = [(callee, self_cls)]
             for (cal, sc) in targets:
+                if cal.qualname in self.reencode_total and self._is_own_encoding(e):
+                    # decoder applied to the library's own encoding of an existing key object: cannot fail (round-trip property, recorded as an assumption)
+                    self.assumptions.append("%s applied to <key>.to_der() / .to_der_fmt() of an existing key object does not raise (encode / decode round trip: C19)" % cal.qualname.split(".")[-2])
+                    continue
                 for s in self.escapes(cal, sc):
                     out.append(s.via("%s -> %s" % (W, cal.qualname)))
             return out
@@ -310,6 +324,10 @@ class ExcAnalysis:
         if k == "delitem":
             self.sites_examined += 1
             base, idx = unsnap(e.d["base"]), unsnap(e.d["index"])
+            if idx.op == "sliceobj":
+                # deleting a slice never raises for lack of elements (on a dictionary it is a TypeError like any slice key; not modelled)
+                self.sites_discharged += 1
+                return out
             kinds = self._subscript_exc(ex, res, base, idx, e)
             for x in kinds:
                 esc(x, "del %s[%s]" % (show(base, 3), show(idx, 3)))
@@ -594,7 +612,18 @@ class ExcAnalysis:
                 esc("StopIteration", "next(%s)" % (show(A[0], 2) if A else ""))
         elif name == "struct.unpack":
             self.sites_examined += 1
-            esc("struct.error", "struct.unpack(%s)" % ", ".join(show(a, 2) for a in A))
+            # unpack fails only when len(data) != calcsize(fmt): an exact-length read of that many bytes (BytesReader.read returns n bytes or raises) cannot
+            ok_len = False
+            if len(A) == 2 and is_const(A[0]) and e.d.get("total") is not None:
+                mc_ = meth_call(unsnap(A[1]))
+                if mc_ and mc_[1] == "read" and len(mc_[2]) == 1 and is_const(mc_[2][0]) and cval(mc_[2][0]) == e.d["total"]:
+                    ro = ex.obj(res.state, unsnap(mc_[0])) if res.state is not None else None
+                    if ro is not None and ro.cls is not None and any(getattr(c_, "name", "") == "BytesReader" for c_ in ro.cls.mro()):
+                        ok_len = True
+            if ok_len:
+                self.sites_discharged += 1
+            else:
+                esc("struct.error", "struct.unpack(%s)" % ", ".join(show(a, 2) for a in A))
         elif name in ("chr",):
             esc("ValueError", "chr(%s)" % (show(A[0], 2) if A else ""))
         elif name in ("os.urandom",):
@@ -730,7 +759,7 @@ class ExcAnalysis:
             # result of a repo function: use its return annotation / known factories
             fq = recv.args[0].args[0]
             if fq.endswith("create_AES128"):
-                t = ex.global_overrides.get(("bec2format.crypto", "__AES128"))
+                t = ex.registry.get("AES128")
                 c = self.prog.classes.get(t.args[0]) if t is not None else self.prog.classes.get("bec2format.crypto.AES128")
                 classes = [c]
             elif fq.endswith("select_encryptor"):
@@ -756,7 +785,7 @@ class ExcAnalysis:
                         out.append((r[1], c))
                 return out
         if recv.op == "attr" and recv.args[1] == "cipher" and name in ("encrypt", "decrypt", "mac"):
-            t = ex.global_overrides.get(("bec2format.crypto", "__AES128"))
+            t = ex.registry.get("AES128")
             c = self.prog.classes.get(t.args[0]) if t is not None else self.prog.classes.get("bec2format.crypto.AES128")
             classes = [c]
         if classes:
@@ -791,7 +820,7 @@ class ExcAnalysis:
 
     def _replaced_bases(self, ex) -> set:
         replaced = set()
-        for (_m, _g), t in ex.global_overrides.items():
+        for t in list(ex.global_overrides.values()) + list(getattr(ex, "item_overrides", {}).values()):
             if t.op == "class":
                 rc = self.prog.classes.get(t.args[0])
                 if rc is not None:
@@ -842,8 +871,18 @@ class ExcAnalysis:
             return INF  # unbounded in principle; discharged per site by a reason entry
         if t.op == "static":
             return INF
-        if t.op == "sub" and unsnap(t.args[0]).op == "sub" and unsnap(unsnap(t.args[0]).args[0]).op == "static" and is_const(unsnap(t.args[1])):
-            v = ex.statics.get(unsnap(unsnap(t.args[0]).args[0]).args[0])
+        def table_entry(x):
+            """name of the module-level table if x is TABLE[key] or TABLE.get(key) / TABLE.get(key, None) (an entry of the table, or None)"""
+            x = unsnap(x)
+            if x.op == "sub" and unsnap(x.args[0]).op == "static":
+                return unsnap(x.args[0]).args[0]
+            mcx = meth_call(x)
+            if mcx and mcx[1] == "get" and unsnap(mcx[0]).op == "static" and 1 <= len(mcx[2]) <= 2 and (len(mcx[2]) == 1 or (is_const(mcx[2][1]) and cval(mcx[2][1]) is None)):
+                return unsnap(mcx[0]).args[0]
+            return None
+
+        if t.op == "sub" and is_const(unsnap(t.args[1])) and table_entry(t.args[0]) is not None:
+            v = ex.statics.get(table_entry(t.args[0]))
             try:
                 k = cval(unsnap(t.args[1]))
                 vals = [x[k] for x in (v.values() if isinstance(v, dict) else v)]
